@@ -89,10 +89,13 @@ def evaluate(ctx, cases, impl, acc):
     if not ctx.driver_ok() or not ctx.run_driver("C10", drv_in, drv_out):
         ctx.tie_ok = False; ctx.broken.append({"kind": "driver failed"}); return
     olines = iter(open(drv_out).read().splitlines())
-    prob = None; mono_ok = True; table = None
-    for c, i in zip(clines, ilines):
+    prob = None; mono_ok = True; table = None; values = {}
+    for c, i in list(zip(clines, ilines)) + [("P end", "")]:
         k = c[:1]
         if k == "P":
+            if prob is not None and values: judge_values(ctx, acc, prob, values, mono_ok)
+            values = {}
+            if c == "P end": break
             prob = c; acc["fits"] += 1
             if not i.startswith("fit ok"):
                 report(ctx, acc, "fit:threw", describe(prob), "monotonic fit threw on a well-posed problem: " + i)
@@ -113,6 +116,15 @@ def evaluate(ctx, cases, impl, acc):
         if k == "M":
             o = next(olines); acc["evaluations"] += 1
             mono_ok = o.startswith("mono=1")
+            inc_ok = o.endswith("inc=1")
+            coefs = [flt(u) for u in table.split()[-int(_ncoef(table)):]]
+            s1_, n_, s2_ = strides(table, int(c.split()[1]))
+            first_ok = all(coefs[a * s2_ * n_ + kk] >= 0 for a in range(s1_) for kk in range(s2_))
+            if all(v == v for v in coefs) and inc_ok != (mono_ok and first_ok):
+                # instance of increments_nonneg_iff failed: the driver's incNonnegB and monoAlongB disagree
+                ctx.tie_ok = False
+                if len(ctx.broken) < 5: ctx.broken.append({"kind": "increments_nonneg_iff instance: incNonnegB != (monoAlongB and first slice >= 0)", "driver": o})
+            if inc_ok: acc["inc_ok"] += 1
             if not mono_ok:
                 pair = first_decreasing_pair(table, int(c.split()[1]))
                 report(ctx, acc, "mono:decreasing-pair", dict(describe(prob), driver=o, pair=pair),
@@ -120,6 +132,14 @@ def evaluate(ctx, cases, impl, acc):
             else:
                 acc["mono_ok"] += 1
                 acc["distinct"].add(hash(table))
+            continue
+        if k == "V" and c.split()[2] == "0":
+            # value at a grid point: collected per line (same other coordinates) and judged when the table is complete
+            o = next(olines).split(); acc["evaluations"] += 1; acc["value_points"] += 1
+            if len(o) < 4: acc["deriv_inexact"] += 1; continue
+            w = c.split(); nd = int(prob.split()[1]); m = int(prob.split()[2]); xb = w[3:3 + nd]
+            key = tuple(xb[:m] + xb[m + 1:])
+            values.setdefault(key, []).append((dbl(xb[m]), frac(o[2]), frac(o[3]), dbl(i), c))
             continue
         if k == "V":
             o = next(olines).split(); acc["evaluations"] += 1; acc["deriv_points"] += 1
@@ -176,6 +196,27 @@ def evaluate(ctx, cases, impl, acc):
                            "constraint inactive (unconstrained fit non-negative and non-decreasing with margin) but the monotonic fit differs by %.3e relative" % d)
 
 
+def judge_values(ctx, acc, prob, values, mono_ok):
+    """the surface itself along monodim (C10_surface_monotone_B): for every line of grid points that differ in the monodim
+    coordinate only, sorted by that coordinate, the exact value of the returned spline must be non-decreasing (instance of
+    the theorem: a failure with monoAlongB true breaks the tie), and the implementation's double-precision values must be
+    non-decreasing up to the rounding envelope of the two evaluations"""
+    for key, pts in values.items():
+        pts.sort(key=lambda q: q[0])
+        for (x0, s0, m0, v0, c0), (x1, s1, m1, v1, c1) in zip(pts, pts[1:]):
+            acc["value_pairs"] += 1
+            if mono_ok and s1 < s0:
+                ctx.tie_ok = False
+                if len(ctx.broken) < 5: ctx.broken.append({"kind": "C10_surface_monotone instance: exact value decreases along monodim although monoAlongB holds", "lines": [c0, c1], "values": [str(s0), str(s1)]})
+            if s1 > s0: acc["value_increasing"] += 1
+            env = ENV_K * float(m0 + m1) * 2.0 ** -53
+            if v0 != v0 or v1 != v1 or v1 - v0 < -env:
+                report(ctx, acc, "value:decreasing", dict(describe(prob), points=[c0, c1], impl_values=[v0, v1], exact_values=[float(s0), float(s1)], envelope=env),
+                       "the fitted surface decreases along monodim from x=%.17g to x=%.17g: %.17g -> %.17g (drop %.3e > envelope %.3e; exact values of the returned spline %.9g -> %.9g)" % (x0, x1, v0, v1, v0 - v1, env, float(s0), float(s1)))
+            elif v1 < v0 and float(m0 + m1) > 0:
+                acc["worst_value_drop_ratio"] = max(acc["worst_value_drop_ratio"], (v0 - v1) / (float(m0 + m1) * 2.0 ** -53))
+
+
 def _ncoef(tline):
     w = tline.split(); nd = int(w[1]); p = 2
     for _ in range(nd):
@@ -207,7 +248,8 @@ def first_decreasing_pair(tline, m):
 
 def new_acc():
     return {"fits": 0, "evaluations": 0, "mono_ok": 0, "deriv_points": 0, "deriv_positive": 0, "deriv_inexact": 0, "worst_neg_ratio": 0.0,
-            "worst_err_ratio": 0.0, "inactive_checked": 0, "inactive_precondition_failed": 0, "worst_inactive_rel": 0.0, "scaled_checked": 0, "worst_scaled_rel": 0.0, "hang_retries": 0, "distinct": set(), "reported": {}}
+            "worst_err_ratio": 0.0, "inactive_checked": 0, "inactive_precondition_failed": 0, "worst_inactive_rel": 0.0, "scaled_checked": 0, "worst_scaled_rel": 0.0, "hang_retries": 0, "distinct": set(), "reported": {},
+            "value_points": 0, "value_pairs": 0, "value_increasing": 0, "worst_value_drop_ratio": 0.0, "inc_ok": 0}
 
 
 def finish(ctx, acc, dist):
@@ -225,6 +267,8 @@ def finish(ctx, acc, dist):
         "optimality of the constrained fit in the active case is C11's subject (nnls_normal_block3), not checked here",
         "scale equivariance fit(2^k z) = 2^k fit(z) and the inactive comparison are checked to %g of the largest coefficient; small-magnitude tables down to 2^-45 (no float32 subnormals)" % INACTIVE_TOL,
     ]
+    ctx.note("value_points=%d value_pairs=%d (increasing %d) worst_value_drop_ratio=%.1f inc_ok=%d" % (
+        acc["value_points"], acc["value_pairs"], acc["value_increasing"], acc["worst_value_drop_ratio"], acc["inc_ok"]))
     ctx.note("fits=%d mono_ok=%d deriv_points=%d (positive %d) worst_neg_ratio=%.1f worst_err_ratio=%.1f inactive checked=%d (precondition failed %d) worst_inactive_rel=%.2e scaled checked=%d worst_scaled_rel=%.2e hang_retries=%d reported=%s" % (
         acc["fits"], acc["mono_ok"], acc["deriv_points"], acc["deriv_positive"], acc["worst_neg_ratio"], acc["worst_err_ratio"],
         acc["inactive_checked"], acc["inactive_precondition_failed"], acc["worst_inactive_rel"], acc["scaled_checked"], acc["worst_scaled_rel"], acc["hang_retries"], json.dumps(acc["reported"], sort_keys=True)))
